@@ -489,7 +489,7 @@ func (e *Engine) registerStubs() {
 		return l[i]
 	}
 	in["log.New"] = func(r *Run, fr *Frame, cc *ssa.CallCommon, a []Value) Value {
-		return &PtrV{obj: r.newObj(types.Typ[types.Int], BVi(0, 64), "logger")}
+		return &PtrV{obj: r.newObj(anyType, a[0], "logger")}
 	}
 	in["github.com/hashicorp/go-uuid.GenerateUUID"] = func(r *Run, fr *Frame, cc *ssa.CallCommon, a []Value) Value {
 		// 16 bytes from crypto/rand (the same input stream as natively), formatted 8-4-4-4-12 in lower-case hex
